@@ -130,8 +130,33 @@ static volatile long g_progress_rewrites = 0;
 static volatile long g_progress_steps = 0;
 static char g_case_id[128];
 
+static volatile long g_abandon_secs = 0;  // KF1: give up on a case that is still rewriting after this much CPU
+static volatile long g_case_cpu = 600;
+static volatile int g_timer_phase = 0;
+
+static void arm_timer_raw(long seconds) {
+  struct itimerval tv;
+  memset(&tv, 0, sizeof tv);
+  tv.it_value.tv_sec = seconds;
+  setitimer(ITIMER_PROF, &tv, nullptr);
+}
+
 static void on_cpu_timeout(int) {
   char buf[256];
+  if (g_timer_phase == 0 && g_abandon_secs > 0) {
+    if (g_progress_rewrites > 0) {
+      // macro expansion has been rewriting and a single pass now runs on and on (KF1): the hook cannot
+      // throw from here, so report and leave the process; the orchestrator restarts after this case
+      int n = snprintf(buf, sizeof buf, "\nABANDONED %s rewrites=%ld\n", g_case_id, (long)g_progress_rewrites);
+      if (write(1, buf, n) < 0) {
+      }
+      _exit(98);
+    }
+    g_timer_phase = 1;
+    long rest = g_case_cpu - g_abandon_secs;
+    arm_timer_raw(rest > 1 ? rest : 1);
+    return;
+  }
   int n = snprintf(buf, sizeof buf, "\nTIMEOUT %s rewrites=%ld steps=%ld\n", g_case_id,
                    (long)g_progress_rewrites, (long)g_progress_steps);
   if (write(1, buf, n) < 0) {
@@ -139,11 +164,11 @@ static void on_cpu_timeout(int) {
   _exit(99);
 }
 
-static void arm_case_timer(long seconds) {
-  struct itimerval tv;
-  memset(&tv, 0, sizeof tv);
-  tv.it_value.tv_sec = seconds;
-  setitimer(ITIMER_PROF, &tv, nullptr);
+static void arm_case_timer(long seconds, long abandon = 0) {
+  g_timer_phase = 0;
+  g_abandon_secs = (abandon > 0 && abandon < seconds) ? abandon : 0;
+  g_case_cpu = seconds;
+  arm_timer_raw(seconds == 0 ? 0 : (g_abandon_secs > 0 ? g_abandon_secs : seconds));
 }
 
 static double thread_cpu() {
@@ -522,6 +547,23 @@ static void mode_compile(const Case &c) {
     if (done) dump_compile(cr, with_program);
   }
   size_t after = heap ? __sanitizer_get_current_allocated_bytes() : 0;
+  long long first_delta = (long long)after - (long long)before;
+  if (heap && done && after != before) {
+    // a one-time lazy initialisation inside libstdc++/libc also shows as a delta: only a delta that
+    // repeats on a second identical call is a per-call leak
+    std::string saved;
+    saved.swap(OUT);
+    size_t b2 = __sanitizer_get_current_allocated_bytes();
+    {
+      CodegenResult cr2;
+      long rw2 = 0;
+      guarded_compile(c, cr2, rw2);
+    }
+    size_t a2 = __sanitizer_get_current_allocated_bytes();
+    saved.swap(OUT);
+    before = b2;
+    after = a2;
+  }
   if (!done) {
     jkey("abandoned");
     OUT += "true";
@@ -533,6 +575,9 @@ static void mode_compile(const Case &c) {
     OUT += ',';
     jkey("heap");
     jint((long long)after - (long long)before);
+    OUT += ',';
+    jkey("heap_first");
+    jint(first_delta);
     if (after != before && __lsan_do_recoverable_leak_check) {
       OUT += ',';
       jkey("lsan");
@@ -1228,7 +1273,7 @@ int main(int argc, char **argv) {
     g_progress_steps = 0;
     printf("BEGIN %s\n", c.id.c_str());
     fflush(stdout);
-    arm_case_timer(case_cpu);
+    arm_case_timer(case_cpu, c.opt("abandon", 0));
     OUT.clear();
     OUT += "{";
     jkey("id");
